@@ -62,13 +62,13 @@
         `s1.level < max_nesting` is a hypothesis (needs `TokSpec` of the `engX` tokenizer, i.e. the frame
         lemmas of `Props/Block.lean` under `TestQuiet` instead of `TestPure`); the custom rule needs the
         extra hypothesis `hX2` (its look-ahead reads neither node kind nor level).
-    (b) lazy continuation of a block quote (`bqScan`, Case 3): the sweep said yes at `next_line`, the quote
-        ends there, the loop of the enclosing frame stands at `next_line` after `restoreOffs`.  Missing:
-        the sweep's state and the next state differ in the LINE TABLE (rows of the quote's lines, rewritten
-        and restored) — needs "look-ahead reads only row `line` of the table" (true of all ten rules:
-        they call `line_indent(line)`, `get_line(line)`, `off(line)` only) and `BqPost` of
-        `Props/Block.lean` for the restored row; and `blk_indent` differs inside a list item (the quirk
-        `indent_nonspace -= blk_indent`).
+    (b) lazy continuation of a block quote: DONE in the appended part (third session) —
+        `quote_end_is_real_start` (generic, frame condition as a hypothesis), `quote_end_is_real_start_shipped`
+        (every ten-rule chain, every depth and `blk_indent`), `custom_rule_after_quote`, with
+        `Lemmas/C16BlockQuote.lean` (`runRuleH_silent_congr3`: look-ahead reads only the row `line` of the
+        table; `bqScan_exit`, `ScanInv`, `blockquote_scans`).  Left as hypotheses: the quote's tokenizer
+        consumed all lines of the quote (`s1.line = nl`; it may stop earlier at a lazy line), the line is not
+        blank and not outdented; for `engX` the frame condition `Frame sE s1` and `hX3`.
     (c) lheading / reference scans: DONE in the appended part — `lazyScan_false_of_true`,
         `lheading_declines_at_sweep_stop`, `lheading_end_is_real_start`, `reference_ok`,
         `reference_end_is_real_start`.
@@ -77,6 +77,7 @@
 -/
 import MdIt.Lemmas.C16BlockReach
 import MdIt.Lemmas.C16BlockList
+import MdIt.Lemmas.C16BlockQuote
 
 namespace MdIt.BlockH.C16
 open MdIt.Block
@@ -993,6 +994,191 @@ theorem bangRule_reads2 (s c b m k lv) :
 example :
     (frameTrace exX 6 7 false (exS "- a\n!x")).map (fun x => x.2.2.line) = [0, 1, 2] ∧
     kindsOf (exX.tok 7 (exS "- a\n!x")) = some [.bulletList '-', .hr '!' 1] := by
+  decide +kernel
+
+end MdIt.BlockH.C16
+
+/-! ## APPENDED (third session): the lazy-continuation test of the blockquote rule -/
+
+namespace MdIt.BlockH.C16
+open MdIt.Block
+open MdIt.Lines (LineOffset)
+
+/-! ## 4b. the lazy-continuation test of the blockquote rule -/
+
+section quote
+variable {ι : Type} {E : Eng ι}
+
+set_option maxHeartbeats 400000 in
+/-- **C16, the blockquote rule as a caller of the sweep (lazy continuation).**  The loop runs the chain on
+    `sE`, the members in front of the blockquote rule decline, the blockquote rule accepts and returns
+    `s1`, having handed the frame back as it found it (`Frame sE s1`: the rows it rewrote are restored —
+    for the shipped rules always: `quote_end_is_real_start_shipped`).  Then it ran `bqScan` from `sE`, the
+    scan ended by the sweep or without it (`bqScan_exit`), and IF THE SCAN STOPPED AT `nl` BECAUSE THE SWEEP
+    SAID YES on `{ sB with line := nl }` (`sB`: the scan's state — `sE` except for the rows in front of
+    `nl`) and the quote's tokenizer consumed all lines of the quote (`s1.line = nl`; it may stop earlier,
+    at a lazy line not taken by a paragraph — then the loop stands there first), then the yes came from a
+    first member `j`, and whenever this iteration returns, the loop goes round again at
+    `retight s1 (!he)` — AT LINE `nl`, a state that agrees with the sweep's on everything look-ahead reads
+    (row `nl` of the table: restored; `blk_indent`, `line_max`, level, node kind, `list_indent`, source) —,
+    runs the real chain there, and whenever that returns it ACCEPTED, with `j` or a member in front of it. -/
+theorem quote_end_is_real_start (hE : E.OK) (h3 : E.OK3) {f : Nat} (he : Bool) {s sE : BState}
+    {pre post : List ι} {i : ι} {s1 : BState}
+    (hR : RunsChain E.cfg.maxNesting s sE) (hc : E.chain = pre ++ i :: post)
+    (hd : Declined (E.rule f) pre sE false) (hi : E.base i = some .blockquote)
+    (hp : E.rule f i sE false = .ok (true, s1)) (hF : Frame sE s1) :
+    ∃ nl old sB', bqScan (E.test f) (f + 1) sE sE.line [] false = .ok (nl, old, sB') ∧
+      (BqSweepExit (E.test f) sE nl sB' ∨
+        (¬ nl < sE.lineMax ∨ (∃ sB2, ScanInv sE nl sB2 ∧ sB' = sB2 ∧ (sB2.getLine nl = .ok [] ∨ True)))) ∧
+      ∀ sB t1, ScanInv sE nl sB → E.test f { sB with line := nl } = .ok (true, t1) → nl < sE.lineMax →
+        s1.line = nl → s1.isEmpty s1.line = false → (∃ ind, s1.lineIndent s1.line = .ok ind ∧ 0 ≤ ind) →
+        ∃ pre0 j post0 t1', E.chain = pre0 ++ j :: post0 ∧
+          Declined (E.rule f) pre0 { sB with line := nl } true ∧
+          E.rule f j { sB with line := nl } true = .ok (true, t1') ∧
+          ∀ r, tokStepG E.cfg.maxNesting E.chain (E.rule f) he s = .ok r →
+            r = .next (he || s1.isEmpty (s1.line - 1)) (retight s1 (!he)) ∧
+            RunsChain E.cfg.maxNesting (retight s1 (!he)) (retight s1 (!he)) ∧
+            ∀ b' u', runChainG (E.rule f) E.chain (retight s1 (!he)) false = .ok (b', u') →
+              b' = true ∧ ∃ pre' j' post', E.chain = pre' ++ j' :: post' ∧
+                Declined (E.rule f) pre' (retight s1 (!he)) false ∧
+                E.rule f j' (retight s1 (!he)) false = .ok (true, u') ∧
+                ((pre' = pre0 ∧ j' = j) ∨ j' ∈ pre0) := by
+  have hq := hE.test_quiet f
+  have hp0 := hp
+  rw [E.rule_base f i _ hi] at hp
+  simp only [runRule] at hp
+  obtain ⟨nl, old, sB', hscan⟩ := blockquote_scans hp
+  refine ⟨nl, old, sB', hscan, bqScan_exit hq _ sE _ _ _ _ _ _ _ hscan (ScanInv.refl _ _), ?_⟩
+  intro sB t1 hinv hyes hlt hline hne hind
+  obtain ⟨g, rfl⟩ : ∃ g, f = g + 1 := by
+    cases f with
+    | zero => rw [E.test_zero] at hyes; cases hyes
+    | succ g => exact ⟨g, rfl⟩
+  rw [E.test_succ] at hyes
+  have hyes' : runChainG (E.rule (g + 1)) E.chain { sB with line := nl } true = .ok (true, t1) := by
+    rw [← runChainG_silent_ext (fun i s => hE.silent_indep g (g + 1) i s)]; exact hyes
+  obtain ⟨pre0, j, post0, hch0, hd0, hj⟩ := chain_true_split (hE.silent_no (g + 1)) E.chain hyes'
+  refine ⟨pre0, j, post0, t1, hch0, hd0, hj, ?_⟩
+  intro r hr
+  have hchain := chain_accepts_at (post := post) hd hp0
+  rw [← hc] at hchain
+  obtain ⟨_, hr'⟩ := step_after_accept' hR hchain hne hr
+  obtain ⟨ind, hi1, h0⟩ := hind
+  have hl1 : (retight s1 (!he)).line < (retight s1 (!he)).lineMax := by
+    show s1.line < s1.lineMax
+    rw [hline, hF.lineMax]; exact hlt
+  have hlv : (retight s1 (!he)).level < E.cfg.maxNesting := by
+    show s1.level < _
+    rw [hF.level]; exact hR.lvl
+  have hnext := (next_iteration (chain := E.chain) (run := E.rule (g + 1)) (u := retight s1 (!he))
+    (mn := E.cfg.maxNesting) hl1 hne hlv (ind := ind) hi1).1 h0
+  refine ⟨hr', hnext, ?_⟩
+  intro b' u' hreal
+  have hu : retight s1 (!he) = upd3 { sB with line := nl } sE.offs s1.children (!he) s1.refs := by
+    obtain ⟨f1, f2, f3, f4, f5, f6, f7⟩ := hF
+    obtain ⟨g1, g2, g3, g4, g5, g6, g7, g8, g9, g10⟩ := hinv.same
+    cases s1; cases sB
+    simp only [retight, upd3] at *
+    subst_vars
+    rfl
+  have hrow : sE.offs[({ sB with line := nl } : BState).line]? = ({ sB with line := nl } : BState).offs[({ sB with line := nl } : BState).line]? :=
+    (hinv.rows nl (Nat.le_refl _)).symm
+  have hju : E.rule (g + 1) j (upd3 { sB with line := nl } sE.offs s1.children (!he) s1.refs) true
+      = .ok (true, upd3 t1 sE.offs s1.children (!he) s1.refs) := by
+    rw [h3 _ _ _ _ _ _ _ hrow, hj]; rfl
+  rw [hch0, hu] at hreal
+  obtain ⟨hb, pre', j', post', he', hd', hj', _, hor⟩ :=
+    chain_agree (hE.false_same (g + 1)) (hE.silent_real (g + 1)) pre0 j post0 hju hreal
+  rw [hu]
+  exact ⟨hb, pre', j', post', by rw [hch0, he'], hd', hj', hor⟩
+
+end quote
+
+/-- **lazy-continuation test, shipped rules**: for every chain over the ten shipped rules the blockquote
+    rule hands the frame back (`ruleAtH_progress`), so `quote_end_is_real_start` holds with no side condition
+    but the stop reason, at every depth and every `blk_indent` -/
+theorem quote_end_is_real_start_shipped (cfg : Cfg) (chain : List RuleIdH) {f : Nat} (he : Bool) {s sE : BState}
+    {pre post : List RuleIdH} {s1 : BState}
+    (hR : RunsChain cfg.maxNesting s sE) (hc : chain = pre ++ .base .blockquote :: post)
+    (hd : Declined ((engH cfg chain).rule f) pre sE false)
+    (hp : (engH cfg chain).rule f (.base .blockquote) sE false = .ok (true, s1)) :
+    Frame sE s1 ∧
+    ∃ nl old sB', bqScan ((engH cfg chain).test f) (f + 1) sE sE.line [] false = .ok (nl, old, sB') ∧
+      ∀ sB t1, ScanInv sE nl sB → (engH cfg chain).test f { sB with line := nl } = .ok (true, t1) →
+        nl < sE.lineMax → s1.line = nl → s1.isEmpty s1.line = false →
+        (∃ ind, s1.lineIndent s1.line = .ok ind ∧ 0 ≤ ind) →
+        ∀ r, tokStepG cfg.maxNesting chain ((engH cfg chain).rule f) he s = .ok r →
+          r = .next (he || s1.isEmpty (s1.line - 1)) (retight s1 (!he)) ∧
+          RunsChain cfg.maxNesting (retight s1 (!he)) (retight s1 (!he)) ∧
+          ∀ b' u', runChainG ((engH cfg chain).rule f) chain (retight s1 (!he)) false = .ok (b', u') → b' = true := by
+  have hF : Frame sE s1 :=
+    (ruleAtH_progress (cfg := cfg) (chain := chain) (fuel := f) (r := .base .blockquote) hp hR.ltE hR.ind).2.2
+  refine ⟨hF, ?_⟩
+  obtain ⟨nl, old, sB', hscan, _, hmain⟩ :=
+    quote_end_is_real_start (E := engH cfg chain) (engH_ok cfg chain) (engH_ok3 cfg chain) he hR hc hd rfl hp hF
+  refine ⟨nl, old, sB', hscan, ?_⟩
+  intro sB t1 hinv hyes hlt hline hne hind r hr
+  obtain ⟨_, _, _, _, _, _, _, hall⟩ := hmain sB t1 hinv hyes hlt hline hne hind
+  obtain ⟨h1, h2, h4⟩ := hall r hr
+  exact ⟨h1, h2, fun b' u' h => (h4 b' u' h).1⟩
+
+set_option maxHeartbeats 400000 in
+/-- **a custom rule directly behind a block quote is invoked for real**: the quote's lazy-continuation
+    test got its yes from `X` (style A allowed: `line` is dead in `bqScan`, the rule resets it); under
+    `CustomOK X`, `hX3` (the look-ahead of `X` reads only the row `line` of the table) and the frame
+    condition, the loop stands next at the claimed line, and whenever the real chain there returns it
+    accepted, with `X` run for real or with a member in front of `X` -/
+theorem custom_rule_after_quote {X : BState → Bool → Res} (hX : CustomOK X)
+    (hX3 : ∀ s o c b m, o[s.line]? = s.offs[s.line]? → X (upd3 s o c b m) true = Except.map (mp3 o c b m) (X s true))
+    (cfg : Cfg) (chain : List RuleIdX) {f : Nat} (he : Bool) {s sE : BState} {pre post : List RuleIdX}
+    {s1 : BState}
+    (hR : RunsChain cfg.maxNesting s sE) (hc : chain = pre ++ .std (.base .blockquote) :: post)
+    (hd : Declined ((engX X cfg chain).rule f) pre sE false)
+    (hp : (engX X cfg chain).rule f (.std (.base .blockquote)) sE false = .ok (true, s1)) (hF : Frame sE s1) :
+    ∃ nl old sB', bqScan ((engX X cfg chain).test f) (f + 1) sE sE.line [] false = .ok (nl, old, sB') ∧
+      ∀ sB t1 pre0 post0, ScanInv sE nl sB → nl < sE.lineMax → chain = pre0 ++ .custom :: post0 →
+        Declined ((engX X cfg chain).rule f) pre0 { sB with line := nl } true →
+        X { sB with line := nl } true = .ok (true, t1) →
+        (engX X cfg chain).test f { sB with line := nl } = .ok (true, t1) →
+        s1.line = nl → s1.isEmpty s1.line = false → (∃ ind, s1.lineIndent s1.line = .ok ind ∧ 0 ≤ ind) →
+        ∀ r, tokStepG cfg.maxNesting chain ((engX X cfg chain).rule f) he s = .ok r →
+          r = .next (he || s1.isEmpty (s1.line - 1)) (retight s1 (!he)) ∧
+          RunsChain cfg.maxNesting (retight s1 (!he)) (retight s1 (!he)) ∧
+          ∀ b' u', runChainG ((engX X cfg chain).rule f) chain (retight s1 (!he)) false = .ok (b', u') →
+            b' = true ∧
+            (X (retight s1 (!he)) false = .ok (true, u') ∨
+             ∃ j ∈ pre0, (engX X cfg chain).rule f j (retight s1 (!he)) false = .ok (true, u')) := by
+  have hE := engX_ok hX cfg chain
+  obtain ⟨nl, old, sB', hscan, _, hmain⟩ :=
+    quote_end_is_real_start (E := engX X cfg chain) hE (engX_ok3 hX3 cfg chain) he hR hc hd rfl hp hF
+  refine ⟨nl, old, sB', hscan, ?_⟩
+  intro sB t1 pre0 post0 hinv hlt hc0 hd0 hx hyes hline hne hind r hr
+  have hx' : (engX X cfg chain).rule f .custom { sB with line := nl } true = .ok (true, t1) := hx
+  obtain ⟨pre1, j1, post1, t1', hc1, hd1, hj1, hall⟩ := hmain sB t1 hinv hyes hlt hline hne hind
+  obtain ⟨rfl, rfl⟩ := first_yes_unique pre0 pre1 (hc0.symm.trans hc1) hd0 hd1 hx' hj1
+  obtain ⟨h1, h2, h4⟩ := hall r hr
+  refine ⟨h1, h2, ?_⟩
+  intro b' u' hreal
+  obtain ⟨hb, pre', j', post', _, _, hj', hor⟩ := h4 b' u' hreal
+  refine ⟨hb, ?_⟩
+  rcases hor with ⟨_, rfl⟩ | hm
+  · exact .inl hj'
+  · exact .inr ⟨j', hm, hj'⟩
+
+/-- the concrete style-A rule `bangRule` meets `hX3` -/
+theorem bangRule_reads3 (s : BState) (o c b m) (h : o[s.line]? = s.offs[s.line]?) :
+    bangRule (upd3 s o c b m) true = Except.map (mp3 o c b m) (bangRule s true) := by
+  unfold bangRule
+  simp only [upd3_line, upd3_getLine h]
+  repeat' (first | rfl | split)
+
+-- "> a\n# h": the lazy-continuation test at line 1 gets a yes (heading), the quote ends, the top loop
+-- stands at line 1 and the heading rule accepts; "> a\n!x": the same with the style-A custom rule
+example :
+    (frameTrace exE 6 7 false (exS "> a\n# h")).map (fun x => x.2.2.line) = [0, 1, 2] ∧
+    kindsOf (exE.tok 7 (exS "> a\n# h")) = some [.blockquote, .atx 1] ∧
+    (frameTrace exX 6 7 false (exS "> a\n!x")).map (fun x => x.2.2.line) = [0, 1, 2] ∧
+    kindsOf (exX.tok 7 (exS "> a\n!x")) = some [.blockquote, .hr '!' 1] := by
   decide +kernel
 
 end MdIt.BlockH.C16
